@@ -182,4 +182,12 @@ def emsOf (progs : List (List Nat)) : Nat → Em := fun i => Em.start ((progs[i]
 def init (shape : Shape) (cap : Option Nat) (gate : Bool) (progs : List (List Nat)) : Sys :=
   { shape := shape, cap := cap, gate := gate, ems := emsOf progs }
 
+/-- `k` steps of the transport thread in a row (the emitters do not run in between) -/
+def tSteps : Nat → Sys → Sys
+  | 0, s => s
+  | k + 1, s => tSteps k (tStep s)
+
+/-- `ids.len()` emissions' `try_send`s in a row (the transport thread does not run in between) -/
+def sendAll (s : Sys) (ids : List Nat) : Sys := ids.foldl Sys.trySend s
+
 end MetricsVerif.TcpProd
